@@ -95,8 +95,12 @@ func paillierRunsDry(res *vkit.Result) {
 			pl.TearDown()
 		case <-time.After(60 * time.Second):
 			close(release)
+			defer func() {}()
 			res.Violate(sig, fmt.Sprintf("after sample.Paillier returned (its randomness source failed for the workers that were not needed), a %d-worker pool could not run %d tasks at the same time within 60 s: workers are still inside the search task", w, w), map[string]interface{}{"body": "paillier-dry", "w": w})
 		}
 		res.Case("")
+		if len(res.Violations) > 0 {
+			return // one pool size is enough to show it; the others would wait for their timeouts too
+		}
 	}
 }
